@@ -3,7 +3,7 @@ package main
 // Controls for the rules and clauses added after the eighth round of seeded changes.
 func init() {
 	control(&Control{ID: "gzip-single-member", Rule: "GZIP-WHOLE-BODY", File: "larking/compress.go",
-		Old: "\tif err := z.Reset(r); err != nil {\n\t\tz.pool.Put(z)\n\t\treturn nil, err\n\t}\n\treturn z, nil\n", New: "\tif err := z.Reset(r); err != nil {\n\t\tz.pool.Put(z)\n\t\treturn nil, err\n\t}\n\tz.Multistream(false)\n\treturn z, nil\n",
+		Old: "\tif err := z.Reset(r); err != nil {\n\t\tc.poolDecompressor.Put(z)\n\t\treturn nil, err\n\t}\n", New: "\tif err := z.Reset(r); err != nil {\n\t\tc.poolDecompressor.Put(z)\n\t\treturn nil, err\n\t}\n\tz.Multistream(false)\n",
 		Expect: "multistream-off", Why: "decompressor stops at the first gzip member"})
 	control(&Control{ID: "statsmd-shared-map", Rule: "STATS-MD-COPY", File: "larking/grpc.go",
 		Old: "\t\t\tHeader:      metadata.MD(md).Copy(),\n", New: "\t\t\tHeader:      md,\n",
